@@ -22,6 +22,7 @@ def check(chk):
     r54(chk, m)
     from . import shared
     shared.number_rules(chk, m, 'R5.5')
+    shared.bracket_rules(chk, m, 'R5.12')
     r57(chk, m)
     from . import shared
     shared.cache_rules(chk, m, 'R5.8')
